@@ -446,7 +446,7 @@ func c13Run(w *verifrt.World, tier Tier) *RunResult {
 func init() {
 	register(&Check{
 		ID: "C13", Level: "exploration", NeedsRace: true, Isolated: true, Run: c13Run, Prepare: c13Prepare,
-		Runs:       [2]int{6000, 150000},
+		Runs:       [2]int{6000, 400000},
 		MaxSeconds: [2]int{120, 1700},
 		Rule: "one run = a history of build / close / probe operations (<= 10 per task, <= 4 live WAFs per task) over a pool of ~500 configurations that put the same string into different cache-using roles (@pm phrase list, @pmFromDataset name with differing contents, @pmFromFile name under differing root file systems, ARGS:/S/ regex key, negated regex key, ctl regex key, @restpath, @validateNid, SecAuditLogRelevantStatus, @rx with SecRxPreFilter On/Off, and every pair of them); " +
 			"the pattern cache is emptied at run start; half of the runs are sequential, half run 2-4 tasks (plus direct cache users with Release) interleaved by the seeded scheduler under the race detector. Oracle: a build panics never and fails exactly when it fails in the golden no_memoize binary built from the same tree; every probe outcome equals the golden outcome; values returned by the cache were produced for the requested key; no race / deadlock. " +
